@@ -76,7 +76,46 @@ def attach_monitors():
 
 def plan(tier):
     return [('history', _PER[tier]),
-            ('cache-option', 3 if tier == 'quick' else 40)]
+            ('cache-option', 3 if tier == 'quick' else 40),
+            ('default-output-name', 2 if tier == 'quick' else 10)]
+
+
+def run_default_name(case, ctx, out):
+    '''Without -o the output goes to <input stem>.t4: the input file must not
+    be touched, whatever it is called.'''
+    import contextlib
+    import io
+    from t4_geom_convert.main import conversion, parse_args
+    rng = case.rng
+    text, opts, kind = rng.choice([d for d in draw_decks(case)])
+    names = ['model.t4', 'deck.T4', 'model.inp', 'model', 'a.b.t4']
+    name = names[case.index % len(names)] if case.index < 2 else \
+        rng.choice(names)
+    inp = os.path.join(ctx.workdir.path, name)
+    with open(inp, 'w', encoding='utf-8', newline='') as fil:
+        fil.write(text)
+    before = set(os.listdir(ctx.workdir.path))
+    err = None
+    try:
+        with contextlib.redirect_stdout(io.StringIO()), \
+                contextlib.redirect_stderr(io.StringIO()):
+            conversion(parse_args([inp] + list(opts)))
+    except (Exception, SystemExit) as exc:  # pylint: disable=broad-except
+        err = repr(exc)[:200]
+    with open(inp, encoding='utf-8', newline='') as fil:
+        same = fil.read() == text
+    out.judged += 1
+    out.counters['default_name_runs'] += 1
+    out.structure = f'default-name:{name}:{kind}'
+    out.decks = [(f'{kind} saved as {name}', text, list(opts))]
+    if not same:
+        out.violation('input-modified', f'input file {name!r} converted '
+                      f'without -o was overwritten (outcome: {err})')
+    for fname in set(os.listdir(ctx.workdir.path)) - before | {name}:
+        path = os.path.join(ctx.workdir.path, fname)
+        if os.path.isfile(path):
+            os.remove(path)
+    return out
 
 
 CACHE_DECK = '''cache option: flagged plane moved by a TRCL
@@ -281,6 +320,9 @@ def run(case, ctx):
     rng = case.rng
     if case.family == 'cache-option':
         return run_cache(case, ctx, out)
+    if case.family == 'default-output-name':
+        shim.setup()
+        return run_default_name(case, ctx, out)
     decks = draw_decks(case)
     order = list(range(len(decks))) * 2
     while len(order) < rng.randint(6, 40):
